@@ -592,7 +592,14 @@ fn worker<P: Property>(args: &Args, shard: usize, out_path: &str) -> i32 {
             if let Some(v) = unknown.first() {
                 // shrink: keep the same signature
                 let (min_case, min_v) =
-                    shrink::<P>(tree, v.clone(), &mut ctx, plan.max_shrink_iters, &mut exec);
+                    shrink::<P>(
+                        tree,
+                        v.clone(),
+                        &mut ctx,
+                        // development aid for mutant runs: fewer shrink steps
+                        std::env::var("DV_MAX_SHRINK").ok().and_then(|x| x.parse().ok()).unwrap_or(plan.max_shrink_iters),
+                        &mut exec,
+                    );
                 let path = save_replay::<P>(&min_case, &min_v, args.seed);
                 merged.violations.push(ViolationReport {
                     signature: min_v.signature.clone(),
